@@ -67,7 +67,7 @@ def has_quant(t, memo=None):
 
 def shapes(rec, repo, cap=400, per_size=40, budget=60.0):
     """yield concrete instantiations (dict like rec['inst'] with lengths / chunk layouts / size parameters fixed), smallest total size first"""
-    eng = mk_engine(rec, repo); inst = rec["inst"]
+    eng = mk_engine(rec, repo); inst = rec["inst"]; eng.expand = (-1, NMAX + 3)
     st = eng.init_state(inst)
     svars = []       # (z3 term, (param, what))
     for name, t in inst.items():
@@ -79,9 +79,13 @@ def shapes(rec, repo, cap=400, per_size=40, budget=60.0):
             svars.append((v.z, (name, "nchunks", 0), 0, CHMAX))
             for c in range(CHMAX): svars.append((v.items[0](z3.IntVal(c)), (name, "clen", c), 0, CLMAX))
         elif v.kind == "int" and name in SIZE_NAMES and not z3.is_int_value(v.z): svars.append((v.z, (name, "val", 0), -3, 3))
-    t0 = time.time(); out = 0
-    for drop_quant in (False, True):
+    t0 = time.time(); out = 0; chunk_counts = [z for z, (nm, what, d), lo, hi in svars if what == "nchunks"]
+    phases = [(False, True), (False, False), (True, False)] if chunk_counts else [(False, False), (True, False)]       # (drop quantified requires?, one chunk per list first?)
+    seen_shapes = set()
+    for drop_quant, single_chunk in phases:
         s = z3.Solver(); s.set(timeout=4000)
+        if single_chunk:
+            for z in chunk_counts: s.add(z <= 1)
         for h in st.pc:
             if drop_quant and has_quant(h): continue
             s.add(h)
@@ -94,7 +98,7 @@ def shapes(rec, repo, cap=400, per_size=40, budget=60.0):
         got_any = False; unknown = False
         for S in range(0, 14):
             s.push(); s.add(total == S); k = 0
-            while k < per_size and out < cap and time.time() - t0 < budget:
+            while k < per_size and out < cap and time.time() - t0 < budget * (0.6 if single_chunk else 1.0):
                 r = s.check()
                 if r != z3.sat: unknown |= (r == z3.unknown); break
                 m = s.model(); vals = [m.eval(z, model_completion=True).as_long() for z, *_ in svars]
@@ -111,12 +115,15 @@ def shapes(rec, repo, cap=400, per_size=40, budget=60.0):
                     conc[name] = ":".join(inst[name].split(":")[:3] + dims)
                 for name, cd in chunks.items():
                     conc[name] = ":".join(inst[name].split(":")[:3]) + ":" + ",".join(str(cd["l"][c]) for c in range(cd["n"]))
+                key = json.dumps(conc, sort_keys=True)
+                if key in seen_shapes: continue
+                seen_shapes.add(key)
                 k += 1; out += 1; got_any = True
                 yield conc
                 if not svars: break
             s.pop()
             if not svars or out >= cap or time.time() - t0 > budget: break
-        if got_any and not unknown: break
+        if single_chunk: continue
         if got_any: break
 
 
@@ -254,7 +261,7 @@ def search(rec, repo, budget=120.0, want_kinds=KINDS, only_obligations=None, ver
     E.EXACT_DIV = True
     unconfirmed = None
     try:
-        for conc in shapes(rec, repo):
+        for conc in shapes(rec, repo, budget=budget):
             if time.time() - t0 > budget: break
             rep["tried_shapes"] += 1
             try:
@@ -300,6 +307,61 @@ def search(rec, repo, budget=120.0, want_kinds=KINDS, only_obligations=None, ver
     if unconfirmed is not None: rep["status"] = "candidate-not-confirmed"; rep["counterexample"] = unconfirmed
     rep["wall_s"] = round(time.time() - t0, 1)
     return rep
+
+
+def xcheck(rec, repo, budget=40.0, max_paths=24):
+    """translation validation of the ENCODING on the unchanged source: for every path of the bounded execution (small shapes) one solver-chosen input is run through the real
+    compiled function, and what it returns / raises must equal what the engine predicts for that path.  A disagreement means PyVC's model of numba's semantics is wrong for
+    that construct (or the callee contract it used is) - a checker fault, never a finding about the repository."""
+    from . import registry
+    rec = concretize(rec); fname = registry.fname_of(rec); t0 = time.time()
+    rep = {"function": fname, "paths_executed": 0, "agree": 0, "disagree": [], "skipped": 0}
+    if not runnable(rec): rep["status"] = "not-runnable"; return rep
+    uses_exp = "__exp__" in (rec["specs"]() if callable(rec["specs"]) else (rec["specs"] or {}))
+    E.EXACT_DIV = True; seen_paths = set()
+    try:
+        for conc in shapes(rec, repo, budget=budget):
+            if time.time() - t0 > budget or rep["paths_executed"] >= max_paths: break
+            try:
+                eng = mk_engine(rec, repo, bmc=True); st = eng.init_state(conc); atoms, cons = nice(eng, st, conc); obls = eng.verify_from(st)
+            except (Unsupported, Stale): rep["skipped"] += 1; continue
+            if eng.pre_sat == "unsat": continue
+            for ob in obls:
+                if ob.outcome not in ("return", "raise") and ob.kind not in ("assert", "divzero"): continue
+                path = (json.dumps(conc, sort_keys=True), ob.name.split("@", 1)[1].rsplit("#", 1)[0], ob.kind if ob.outcome is None else ob.outcome)
+                if path in seen_paths: continue
+                seen_paths.add(path)
+                if rep["paths_executed"] >= max_paths or time.time() - t0 > budget: break
+                s = z3.Solver(); s.set(timeout=5000); s.add(*ob.hyps); s.add(*cons)
+                if ob.outcome is None: s.add(z3.Not(ob.goal))         # an assert / division that fails on this path: the real code must raise
+                if s.check() != z3.sat: continue
+                m = s.model()
+                try: args = model_inputs(m, atoms, conc, st, rec.get("native_types", {}))
+                except Exception: rep["skipped"] += 1; continue
+                nat = native(repo, rec, args)
+                if "error" in nat: rep["skipped"] += 1; continue
+                rep["paths_executed"] += 1
+                if ob.outcome == "return":
+                    if uses_exp: rep["skipped"] += 1; rep["paths_executed"] -= 1; continue       # exp / log are uninterpreted: a model's numbers are not the real ones
+                    try: pred = predicted(eng, ob, m)
+                    except Exception as ex: rep["skipped"] += 1; rep["paths_executed"] -= 1; continue
+                    ok = nat["raised"] is None and same(pred, nat["returns"])
+                else: pred = "raises"; ok = nat["raised"] is not None
+                if ok: rep["agree"] += 1
+                else: rep["disagree"].append({"shape": conc, "args": args, "engine_predicts": pred, "real_code": nat, "path": path[1]})
+    finally: E.EXACT_DIV = False
+    rep["status"] = "ok" if not rep["disagree"] else "DISAGREE"; rep["wall_s"] = round(time.time() - t0, 1)
+    return rep
+
+
+def _xjob(args):
+    idx, repo, mods, budget = args
+    from . import registry
+    for m in mods: importlib.import_module(m)
+    try: return xcheck(registry.RECORDS[idx], repo, budget)
+    except Exception as ex:
+        import traceback
+        return {"function": registry.fname_of(registry.RECORDS[idx]), "status": "error", "error": traceback.format_exc()[-1200:], "paths_executed": 0, "agree": 0, "disagree": []}
 
 
 def recheck(rec, repo, cx):
@@ -354,8 +416,19 @@ def main():
     ap = argparse.ArgumentParser(); ap.add_argument("--repo", default="/repo"); ap.add_argument("--functions", nargs="*", help="substrings of function[instantiation]")
     ap.add_argument("--budget", type=float, default=120.0); ap.add_argument("--json"); ap.add_argument("--procs", type=int, default=8); ap.add_argument("--stems", nargs="*")
     ap.add_argument("--recheck", help="replay file holding a verifier_counterexample: exit 1 while the input still violates the contract on the current source")
+    ap.add_argument("--xcheck", action="store_true", help="translation validation of the encoding: one natively executed input per path of the bounded execution")
     a = ap.parse_args(); mods = ["contracts.kernels"]
     for m in mods: importlib.import_module(m)
+    if a.xcheck:
+        idxs = registry.select(only=a.functions, tier="thorough")
+        with mp.get_context("spawn").Pool(min(a.procs, max(1, len(idxs)))) as pool: reps = pool.map(_xjob, [(i, a.repo, mods, a.budget) for i in idxs], chunksize=1)
+        for r in reps:
+            print(f"{r['function']:100s} {r.get('status'):14s} paths={r['paths_executed']} agree={r['agree']} disagree={len(r['disagree'])} skipped={r.get('skipped')} {r.get('wall_s', '')}s")
+            for d in r["disagree"][:2]: print("      ", json.dumps(d, default=str)[:700])
+            if r.get("status") == "error": print(r["error"])
+        print(f"XCHECK: {sum(r['agree'] for r in reps)} paths agree, {sum(len(r['disagree']) for r in reps)} disagree, over {sum(1 for r in reps if r['paths_executed'])} function instantiations")
+        if a.json: json.dump(reps, open(a.json, "w"), indent=1, default=str)
+        sys.exit(3 if any(r["disagree"] for r in reps) else 0)
     if a.recheck:
         f = json.load(open(a.recheck)); cx = f["verifier_counterexample"]
         rec = next(r for r in registry.RECORDS if registry.fname_of(r) == f["function"])
